@@ -414,3 +414,36 @@ fn c14_sx126x_do_cad() {
     if res.is_ok() { assert!(op == 0xC5 && len == 1 && only_last_changes_mode(), "C14 do_cad ends with SetCad and commands no other mode change"); }
     kani::cover!(res.is_ok(), "verif-reached: cad started");
 }
+
+// ------------------------------------------------------------------------------------------------ C14/C17: nothing survives a reset / cold sleep
+// History obligation on the REAL driver: channel f0, then optionally a hardware reset or a COLD sleep + wake-up (both lose the
+// chip's configuration), then channel f: a SetRfFrequency carrying the word of f is sent AFTER the reset / sleep -- also when
+// f == f0.  The PLL conversion is an uninterpreted function (same argument, same word).
+fn stub_convert_freq_uf<SPI, IV, C>(freq_in_hz: u32) -> u32 { uf_apply(freq_in_hz) }
+// @verif props=C14,C17 obligation=Sx126x::set_channel.history[channel; reset|cold sleep?; channel] label=proved-complete tier=quick bound="any two frequencies (equal or not); nothing / hardware reset / cold sleep and wake-up in between"
+#[kani::proof]
+#[kani::unwind(26)]
+#[kani::stub(Sx126x::convert_freq_in_hz_to_pll_step, stub_convert_freq_uf)]
+fn c14_sx126x_channel_after_reset() {
+    tape::init();
+    let mut r = radio();
+    let (f0, f) = (tape::u32(), tape::u32());
+    let first = r.set_channel(f0);
+    let between = tape::below(3);
+    let mut lost_at = 0usize;
+    if between == 1 { let _ = r.reset(&mut MockDelay); lost_at = unsafe { (&*(&raw const SPI)).n }; }
+    if between == 2 { let _ = r.set_sleep(false, &mut MockDelay); let _ = r.ensure_ready(RadioMode::Sleep); lost_at = unsafe { (&*(&raw const SPI)).n }; }
+    let res = r.set_channel(f);
+    let g = unsafe { &*(&raw const SPI) };
+    if first.is_ok() && res.is_ok() {
+        // the LAST SetRfFrequency of the log, and where it is
+        let mut last: Option<usize> = None; let mut k = 0;
+        while k < LOG_LEN { if k < g.n && g.w[k][0] == 0x86 && g.wl[k] == 5 { last = Some(k); } k += 1; }
+        assert!(last.is_some(), "SetRfFrequency sent");
+        let i = last.unwrap();
+        assert!(u32::from_be_bytes([g.w[i][1], g.w[i][2], g.w[i][3], g.w[i][4]]) == uf_apply(f), "C17 the frequency in force in the chip is the one requested last");
+        assert!(between == 0 || i >= lost_at, "C14/C17 after a reset or cold sleep the frequency is programmed again, even if it is the one programmed before");
+    }
+    kani::cover!(first.is_ok() && res.is_ok() && between == 1 && f == f0, "verif-reached: same channel again after a reset");
+    kani::cover!(first.is_ok() && res.is_ok() && between == 2 && f == f0, "verif-reached: same channel again after a cold sleep");
+}
